@@ -696,7 +696,7 @@ pub fn do_check(args: &[String]) -> i32 {
             // same statement text and class as one already triaged, or enough distinct reports
             continue;
         }
-        let (ms, mv) = crate::min::minimise(script, v, 600);
+        let (ms, mv) = crate::min::minimise(script, v, 3000);
         let prop_of = property_of(&property, &mv);
         if let Some(f) = match_known(&known, &ms, &mv) {
             *known_hits.entry(f.id.clone()).or_insert(0) += 1;
@@ -912,7 +912,7 @@ pub fn main(args: Vec<String>) -> i32 {
             let show: usize = arg_val(&args, "--show").and_then(|s| s.parse().ok()).unwrap_or(3);
             let do_min = args.iter().any(|a| a == "--min");
             for (i, v, s) in agg.violations.iter().take(show) {
-                let (s2, v2) = if do_min { crate::min::minimise(s, v, 600) } else { (s.clone(), v.clone()) };
+                let (s2, v2) = if do_min { crate::min::minimise(s, v, 3000) } else { (s.clone(), v.clone()) };
                 println!("--- violation at run {} stmt {} kind {:?}", i, v2.stmt_index, v2.kind);
                 for (j, l) in rendered(&s2).iter().enumerate() {
                     if j <= v2.stmt_index {
